@@ -125,8 +125,12 @@ func createChannel(r *simcore.Run, db *channeldb.DB, idx int) *chanRec {
 	var root chainhash.Hash
 	binary.BigEndian.PutUint64(root[:], uint64(idx)+77)
 	c := &chanRec{idx: idx, scid: scidOf(idx), point: wire.OutPoint{Hash: fh, Index: uint32(idx)}}
+	chanType := channeldb.ChannelType(channeldb.SingleFunderTweaklessBit)
+	if idx%3 == 0 {
+		chanType |= channeldb.ZeroConfBit | channeldb.ScidAliasChanBit
+	}
 	st := &chanstate.OpenChannel{
-		ChanType:                channeldb.SingleFunderTweaklessBit,
+		ChanType:                chanType,
 		LocalChanCfg:            mkChanCfg(local),
 		RemoteChanCfg:           mkChanCfg(remote),
 		IdentityPub:             remote[5],
@@ -146,6 +150,14 @@ func createChannel(r *simcore.Run, db *channeldb.DB, idx int) *chanRec {
 	addr := &net.TCPAddr{IP: net.ParseIP("127.0.0.1"), Port: 18000 + idx}
 	r.Must(st.SyncPending(addr, 100), "SyncPending")
 	r.Must(st.MarkAsOpen(c.scid), "MarkAsOpen")
+	if idx%3 == 0 {
+		// every third channel is a zero-conf channel whose funding
+		// transaction has confirmed: the link, the keystones and the
+		// forwarding packages stay keyed by the alias (c.scid), the record
+		// also carries the confirmed id (no draw: replay files stay valid)
+		r.Must(st.MarkRealScid(lnwire.ShortChannelID{BlockHeight: uint32(700 + idx), TxIndex: uint32(idx), TxPosition: 1}), "MarkRealScid")
+		r.Count("probe_zero_conf_channel_confirmed")
+	}
 	c.state = st
 	return c
 }
